@@ -210,6 +210,36 @@ Proof. destruct fs; reflexivity. Qed.
 Lemma files_end_snoc (fs : list mfile) f : files_end (fs ++ [f]) = Some (c_end (snd f)).
 Proof. unfold files_end. rewrite last_opt_snoc. reflexivity. Qed.
 
+Definition floor_pres (fs fs' : list mfile) : Prop := forall fl, floor_ok fl fs -> floor_ok fl fs'.
+
+Lemma floor_ok_last_same fl (fs : list mfile) g c g' c' :
+  floor_ok fl (fs ++ [(g, c)]) -> g_id g' = g_id g -> c_first c' = c_first c -> c_split c' = c_split c ->
+  (fs = [] -> g_id g <> 0) -> floor_ok fl (fs ++ [(g', c')]).
+Proof.
+  intros [Hall Hhd] Hid Hf Hs Hne. split.
+  - apply Forall_app in Hall. destruct Hall as [H1 H2]. apply Forall_app. split; [exact H1|].
+    inversion H2; subst. constructor; [|constructor]. cbn [snd] in *. rewrite Hf, Hs. assumption.
+  - destruct fs as [|f0 fs0]; cbn [app] in *.
+    + unfold f_id. cbn [fst]. intros E. exfalso. apply (Hne eq_refl). congruence.
+    + exact Hhd.
+Qed.
+
+Lemma floor_ok_snoc_fresh fl (fs : list mfile) f limit id term next :
+  floor_ok fl (fs ++ [f]) -> floor_ok fl ((fs ++ [f]) ++ [new_file limit id term next]).
+Proof.
+  intros [Hall Hhd]. split.
+  - apply Forall_app. split; [exact Hall|]. constructor; [|constructor].
+    unfold new_file, c_fresh. cbn [snd c_first c_split]. lia.
+  - destruct fs; exact Hhd.
+Qed.
+
+Lemma rep_single_id m g c : mgr_rep m [(g, c)] -> g_id g <> 0.
+Proof.
+  intros R. pose proof (rp_ids m _ R) as H. cbn [ids_pos] in H. destruct H as [_ [H|(f2 & r & Hr & _)]].
+  - unfold f_id in H. cbn [fst] in H. lia.
+  - discriminate.
+Qed.
+
 Definition write_post (fs fs' : list mfile) (e : N) (x : lrec) (r : wres) : Prop :=
   match r with
   | WOk => r_index x = e /\ files_vis fs' = files_vis fs ++ [x] /\ files_first fs' = files_first fs
@@ -223,9 +253,10 @@ Lemma mgr_write_notfull m (fs : list mfile) g c x fuel can :
   rec_ok x -> rec_nonempty x -> r_index x + 1 < U64MAX ->
   exists m' fs' r, mgr_write (S fuel) m x can = (m', r) /\ mgr_rep m' fs' /\
     m_limit m' = m_limit m /\ m_pre_ptr m' = m_pre_ptr m /\
-    write_post (fs ++ [(g, c)]) fs' (c_end c) x r.
+    write_post (fs ++ [(g, c)]) fs' (c_end c) x r /\ floor_pres (fs ++ [(g, c)]) fs'.
 Proof.
   intros R Hnf Hok Hne Hidx.
+  assert (Hid0 : fs = [] -> g_id g <> 0) by (intros ->; apply (rep_single_id m g c R)).
   pose proof (rp_files m _ R) as Hfiles. apply Forall_app in Hfiles. destruct Hfiles as [Hfs Hlast].
   inversion Hlast as [|? ? Hgc _]; subst. destruct Hgc as (W & Hfirst & Hsp & Hle & Hmax & _).
   cbn [mgr_write]. rewrite (rp_cur m _ R), last_id_snoc.
@@ -243,6 +274,7 @@ Proof.
     eexists. exists (fs ++ [(g, c')]), WOk. split; [reflexivity|].
     split; [apply (rep_set_last m fs g c c' R W' Hf' Hsp'); lia|].
     split; [reflexivity|]. split; [reflexivity|].
+    split; [|intros fl Hfl; apply (floor_ok_last_same fl fs g c g c' Hfl eq_refl Hf' Hsp' Hid0)].
     split; [exact Hi|]. split.
     + rewrite !files_vis_app, !files_vis_one. cbn [snd]. rewrite <- app_assoc. f_equal.
       apply vis_push; try assumption. apply (wf_split c W).
@@ -257,6 +289,8 @@ Proof.
     change (end_index (conc c')) with (c_end c'). rewrite Hsw.
     eexists. eexists. exists WOk. split; [reflexivity|]. split; [exact R3|].
     split; [exact Hl3|]. split; [exact Hp3|].
+    split; [|intros fl Hfl; apply floor_ok_snoc_fresh; unfold close_f; cbn [fst snd];
+             eapply floor_ok_last_same; [exact Hfl|reflexivity|exact Hf'|exact Hsp'|exact Hid0]].
     split; [exact Hi|]. split.
     + rewrite !files_vis_app, !files_vis_one. unfold close_f, new_file. cbn [snd].
       rewrite vis_fresh, app_nil_r, <- app_assoc. f_equal.
@@ -269,7 +303,8 @@ Proof.
     destruct Hmk as [Hi ->].
     eexists. exists (fs ++ [(g, c)]), WErrIndex. split; [reflexivity|].
     split; [apply (rep_set_last m fs g c c R W); auto|].
-    split; [reflexivity|]. split; [reflexivity|]. split; [exact Hi|]. split; reflexivity.
+    split; [reflexivity|]. split; [reflexivity|]. split; [|intros fl Hfl; exact Hfl].
+    split; [exact Hi|]. split; reflexivity.
 Qed.
 
 Lemma fresh_not_full limit next term sp : HDR_LEN + 10 < limit -> is_full (conc (c_fresh limit next term sp)) = false.
@@ -288,7 +323,7 @@ Theorem mgr_write_rep m (fs : list mfile) x :
     match files_end fs with
     | Some e => write_post fs fs' e x r
     | None => r = WOk /\ files_vis fs' = [x] /\ files_first fs' = Some (r_index x)
-    end.
+    end /\ floor_pres fs fs'.
 Proof.
   intros R Hok Hne Hidx. pose proof (rp_limit m _ R) as Hlim.
   assert (Hl42 : HDR_LEN + 10 < m_limit m) by lia.
@@ -298,10 +333,12 @@ Proof.
     destruct (switch_rep_nil m (r_index x) (r_term x) R ltac:(lia)) as (m1 & Hsw & R1 & Hl1 & Hp1).
     rewrite Hsw.
     pose proof (mgr_write_notfull m1 [] _ _ x 2 true R1 (fresh_not_full (m_limit m) _ _ _ Hl42) Hok Hne Hidx)
-      as (m' & fs' & r & Hwr & R' & Hl' & Hp' & Hpost).
+      as (m' & fs' & r & Hwr & R' & Hl' & Hp' & Hpost & Hflo).
     cbn [mgr_write] in Hwr. rewrite (rp_cur m1 _ R1) in Hwr. cbn [app last_id last_opt rev new_file f_id fst] in Hwr.
     rewrite Hwr. exists m', fs', r. split; [reflexivity|]. split; [exact R'|].
     split; [congruence|]. split; [congruence|].
+    split; [|intros fl _; apply Hflo; split; [constructor; [unfold new_file, c_fresh; cbn [snd c_first c_split]; lia|constructor]|
+                                            unfold new_file, f_id; cbn [fst new_range g_id]; intros E; discriminate]].
     unfold files_end. cbn [last_opt rev].
     rewrite c_end_fresh in Hpost. destruct r; cbn [write_post] in Hpost.
     + destruct Hpost as (_ & Hv & Hf). split; [reflexivity|]. split.
@@ -328,9 +365,12 @@ Proof.
       change (end_index (conc c)) with (c_end c). rewrite Hsw.
       cbn [set_actor m_limit] in R3.
       pose proof (mgr_write_notfull m3 _ _ _ x 1 false R3 (fresh_not_full (m_limit m) _ _ _ Hl42) Hok Hne Hidx)
-        as (m' & fs' & r & Hwr & R' & Hl' & Hp' & Hpost).
+        as (m' & fs' & r & Hwr & R' & Hl' & Hp' & Hpost & Hflo).
       subst two. rewrite Hwr. exists m', fs', r. split; [reflexivity|]. split; [exact R'|].
       split; [cbn [set_actor m_limit] in *; congruence|]. split; [cbn [set_actor m_pre_ptr] in *; congruence|].
+      split; [|intros fl Hfl; apply Hflo; apply floor_ok_snoc_fresh; unfold close_f; cbn [fst snd];
+               eapply floor_ok_last_same; [exact Hfl|reflexivity|reflexivity|reflexivity|];
+               intros ->; apply (rep_single_id m g c R)].
       rewrite c_end_fresh in Hpost. unfold new_file in *. cbn [set_actor m_limit] in *.
       assert (Hv0 : files_vis ((fs0 ++ [close_f (g, c) (c_end c)]) ++ [new_file (m_limit m) (g_id g + 1) (l_lterm (conc c)) (c_end c)])
                     = files_vis (fs0 ++ [(g, c)])).
@@ -342,6 +382,6 @@ Proof.
       * split; [exact A|split; [rewrite B; f_equal; exact Hv0|rewrite C; exact Hf0]].
       * split; [exact A|split; [rewrite B; exact Hv0|rewrite C; exact Hf0]].
     + destruct (mgr_write_notfull m fs0 g c x 2 true R Efull Hok Hne Hidx)
-        as (m' & fs' & r & Hwr & R' & Hl' & Hp' & Hpost).
-      exists m', fs', r. auto.
+        as (m' & fs' & r & Hwr & R' & Hl' & Hp' & Hpost & Hflo).
+      exists m', fs', r. repeat (split; [assumption|]). exact Hflo.
 Qed.
